@@ -18,6 +18,9 @@ LEVEL = {
  "C10": ("frame conditions at L1 (a step touches only its machine, its slot, the signal, its own flags), pair harness (a machine's counter update is independent of a neighbour), L2 (outside its own steps a machine never changes; addressed events reach only their machine).", "3 C10"),
  "C12": ("L0: Machine::validate = fractions real in [0,1] (any f64 bit pattern incl. NaN), >= 1 state, every state judged with the machine's state count, any rejected state rejects the machine. Row/distribution judgements: see level_note.", "3 C12"),
  "C13": ("L0: Dist::sample for any sampler result (any f64) and any start/max is real, >= 0, <= max; consumers total; real Uniform arm: low == high returns low without drawing, low < high with a word whose top two bits are clear returns in one iteration inside [low, high).", "3 C13"),
+ "C14": ("step contracts without machines: NormalSent -> one TunnelSent at the same time; TunnelSent -> one TunnelRecv on the other side at exactly time + network delay, same kind; TunnelRecv -> one Normal/PaddingRecv; pick_next pops the earliest of two queued packets (client first on ties) without shifting it in time. Whole runs are composed from these steps by an argument that is not itself verified.", "3 C14"),
+ "C15": ("step contracts: every packet event produces exactly one follow-up event of the same kind (conservation), padding replace re-labels the queued normal packet instead of adding one, TunnelRecv not before TunnelSent + delay, pick_next consumes exactly the event it returns.", "3 C15"),
+ "C19": ("NetworkBottleneck::new total for every packets-per-second limit >= 1 (division-by-zero defect fixed); pick_next never returns an event before the current time on two-packet queues; every untagged panic / overflow / failed internal assertion in any simulator harness is reported under this property. Run-twice equality and global termination are whole-program properties outside the technique.", "3 C19"),
  "C16": ("step contracts of do_scheduled_action(BlockOutgoing) (expiry rule, bypass rule, BlockingBegin) and peek_blocked_exp from arbitrary small states; two genuine defects are listed known findings.", "3 C16"),
  "C17": ("step contracts: trigger_update stores the returned action with due time now+timeout (overwrite, cancels), do_scheduled_action fires exactly the due slot once, peek_scheduled_action never lets time pass a due action.", "3 C17"),
  "C18": ("step contracts: trigger_update(UpdateTimer) sets/keeps the timer and reports TimerBegin exactly per the contract, cancels clear it, do_internal_timer reports TimerEnd once at the expiry.", "3 C18"),
@@ -26,14 +29,12 @@ LEVEL = {
 NOTE = {
  "C02": "Assumes Inv (DESIGN 2.4). The float kernel below_limit_padding == statement predicate (two f64 divisions on each side) does not finish under CBMC (division-equivalence miter, > 15 min even for one division pair); L1 therefore abstracts the predicate by its proven-by-reading factorisation 'state_limit > 0 AND constant-per-step', and a mutation INSIDE the fraction arithmetic of below_limit_padding is outside what this check decides.",
  "C03": "As C02 for below_limit_blocking (div_duration_f64). std::time overflow of accumulated blocking (F5) is not modelled by the virtual clock (saturating add).",
- "C12": "State::validate's row judgement (hashbrown/SipHash) and the 11 distribution validators are not yet decided by a registered job; NaN probabilities (F2) are therefore not covered.",
+ "C12": "Row judgement decided with HashSet::insert stubbed to a no-op (targets assumed pairwise distinct: the duplicate-target clause is NOT decided); from_str applying the same judgement is read off the source (it ends in Machine::validate), not decided by a solver query; Poisson/Gamma/Beta/Geometric validators only in the thorough tier.",
+ "C14": "NetworkBottleneck::sample is replaced by its no-limit contract (delay, None) in the TunnelSent step (the real function with its VecDeque window runs CBMC out of memory); the trace-derived limit never being exceeded is therefore assumed, not decided. parse_trace is not covered.",
 }
 DEFAULT_NOTE = "Trusted: Kani's MIR->goto translation, CBMC, CaDiCaL; the harness oracles (transcriptions of the property text); environment models and stubs listed in the evidence; Inv (DESIGN 2.4). Nothing is claimed outside the stated bounds."
 NA = [
  ("C11", "round-trip and hostile-input safety run through zlib, base64, bincode/serde and SHA-256, whose input-length-dependent loops and symbolic-length allocations are outside bit-blasting reach (bincode round trip: timeout 900 s; parse_v1 on 333 symbolic bytes: symex not finished in 20 min); the memory bound is a resource property, not an assertion over inputs"),
- ("C14", "check under construction (network-stack step contracts); whole simulated runs are out of reach"),
- ("C15", "check under construction (network-stack step contracts); whole simulated runs are out of reach"),
- ("C19", "check under construction (bottleneck / pick_next step contracts); run-twice equality and global termination are whole-program properties out of reach"),
 ]
 
 def main():
